@@ -111,6 +111,8 @@ impl JitWorld {
     }
     let mp = &mut core.memory as *mut MemoryAreas;
     crate::mem::memory_write_byte(mp, 0x2100, bank);
+    crate::mem::memory_write_byte(mp, 0xFF46, crate::cpustep::BASE_DMA_PAGE);
+    core.memory.oam_dma = None;
     let pristine = Pristine {
       rom: core.memory.rom.to_vec(),
       vram: core.memory.video_ram.to_vec(),
@@ -366,7 +368,7 @@ impl JitWorld {
     if io {
       self.core.memory.io = IO::new();
       // power-on value of the DMA register, through the bus (the page latch is subject state)
-      crate::mem::memory_write_byte(&mut self.core.memory as *mut MemoryAreas, 0xFF46, 0xFF);
+      crate::mem::memory_write_byte(&mut self.core.memory as *mut MemoryAreas, 0xFF46, crate::cpustep::BASE_DMA_PAGE);
       self.core.memory.oam_dma = None;
       (self.base_io)(&mut self.core);
     }
@@ -392,7 +394,7 @@ impl JitWorld {
     m.high_ram.copy_from_slice(&self.pristine.hram);
     m.io = IO::new();
     let mp = m as *mut MemoryAreas;
-    crate::mem::memory_write_byte(mp, 0xFF46, 0xFF);
+    crate::mem::memory_write_byte(mp, 0xFF46, crate::cpustep::BASE_DMA_PAGE);
     crate::mem::memory_write_byte(mp, 0xFFFF, 0);
     self.core.memory.oam_dma = None;
     (self.base_io)(&mut self.core);
